@@ -37,6 +37,20 @@ NOTE = ("Decides only the structural clauses named in DESIGN.md section 5 (neces
         "Trusted base: CPython's ast module and the analyser in /verif/sa.")
 
 
+def _fix_note():
+    """The repairs recorded in known_findings.json (the file is the source of truth; /repo's log has the same commits)."""
+    try:
+        k = json.load(open(os.path.join(ROOT, "known_findings.json")))
+        fixed = [e for e in k if e.get("status") == "fixed"]
+        commits = []
+        for e in fixed:
+            if e.get("commit") not in commits:
+                commits.append(e.get("commit"))
+        return " Repairs so far: %d findings in %d fix: commits (%s)." % (len(fixed), len(commits), " ".join(commits))
+    except Exception:
+        return ""
+
+
 def main():
     props = {}
     with open(os.path.join(ROOT, "properties.jsonl")) as f:
@@ -89,7 +103,7 @@ def main():
         "notes": "Every check parses /repo's current working tree on each run (stdlib ast only; nothing under /repo "
                  "is imported or executed). Exit 2 + ANALYSIS-ERROR means the analysis could not run (vanished "
                  "anchor, instance count under the confirmed floor) and is never a verdict. Genuine defects found "
-                 "are repaired by 'fix:' commits in /repo and recorded in known_findings.json.",
+                 "are repaired by 'fix:' commits in /repo and recorded in known_findings.json." + _fix_note(),
     }
     with open(os.path.join(ROOT, "MANIFEST.json"), "w") as f:
         json.dump(m, f, indent=1)
